@@ -800,7 +800,9 @@ fn main() {
             use varpulis_runtime::sase::{SaseEngine, SasePattern};
             let strv = |p: &str| -> String { p.to_string() };
             let mk_lit = |c: &str, p: &str| -> Expr { if c == "Str" { Expr::Str(strv(p)) } else { lit(c, p).0 } };
-            let cmp = Expr::Binary { op: binop(&a[3]), left: Box::new(Expr::Ident("x".into())), right: Box::new(mk_lit(&a[6], &a[7])) };
+            let flip = a.get(8).map(|s| s == "flip").unwrap_or(false);        // `lit OP x` instead of `x OP lit`
+            let cmp = if flip { Expr::Binary { op: binop(&a[3]), left: Box::new(mk_lit(&a[6], &a[7])), right: Box::new(Expr::Ident("x".into())) } }
+                      else { Expr::Binary { op: binop(&a[3]), left: Box::new(Expr::Ident("x".into())), right: Box::new(mk_lit(&a[6], &a[7])) } };
             let e = if a[2] == "1" { Expr::Unary { op: UnaryOp::Not, expr: Box::new(cmp) } } else { cmp };
             let mut ev = Event::new("T");
             if a[4] != "missing" { ev = ev.with_field("x", if a[4] == "Str" { Value::Str(a[5].as_str().into()) } else { lit(&a[4], &a[5]).1 }); }
